@@ -751,7 +751,7 @@ def check(prog: Program, L, pid: str) -> None:
     """rule M for property `pid`: no opaque memo on the property's path"""
     entries, what, by_name = entries_for(prog, pid)
     if not entries:
-        return
+        return lambda: None
     positive_control()
     L.rule("M", f"no history-dependent memo on {what}: a value kept between calls (stored under a guard on its own cache attribute) is keyed on, refreshed from, "
                 "or reset by every writer of, each mutable input it was computed from")
@@ -776,4 +776,5 @@ def check(prog: Program, L, pid: str) -> None:
         else:
             L.ok("M", f"{s.construct}:transparent", where)
     L.ok("M", f"path:{len(reached)}-functions:{n}-memo-sites:control-ok", "")
-    L.floor(f"functions on the path of rule M ({what})", len(reached), PATH_FLOORS.get(pid, 1))
+    L.extra["rule_M_path_functions"] = len(reached)
+    return lambda: L.floor(f"functions on the path of rule M ({what})", len(reached), PATH_FLOORS.get(pid, 1))
